@@ -231,6 +231,21 @@ pub fn search(seed: u64, n: u64) {
         }
     }
     corpus.push(("l1,l2 uncut".into(), l1, l2, ""));
+    // pairs sharing a BIT-IDENTICAL end point that cross once or twice more, the other curve's control points on one side of its chord:
+    // the shared hull vertex lies exactly on a fat-line edge and rounding decides on which side (regression inputs of the seeded change
+    // C02-m7, which removed the 0.001 margin of `round_y_value`; the unchanged code is right on all of them)
+    let q = |p: [(f64, f64); 4]| -> Cubic { [Coord2(p[0].0, p[0].1), Coord2(p[1].0, p[1].1), Coord2(p[2].0, p[2].1), Coord2(p[3].0, p[3].1)] };
+    let shared: [([(f64, f64); 4], [(f64, f64); 4]); 5] = [
+        ([(46.612, 43.811), (23.588, 31.871000000000002), (16.329, 65.784), (13.396, 4.524)], [(46.612, 43.811), (31.989, 0.543), (39.277, 95.617), (25.5, 77.599)]),
+        ([(28.645, 93.566), (39.347, 45.624), (76.83200000000001, 85.421), (20.775000000000002, 47.752)], [(20.775000000000002, 47.752), (11.365, 98.013), (95.10000000000001, 82.144), (48.408, 29.595)]),
+        ([(26.784, 47.436), (38.683, 61.31), (15.741, 96.78), (75.123, 85.10000000000001)], [(1.614, 44.816), (16.632, 89.627), (60.22, 48.24), (26.784, 47.436)]),
+        ([(39.884, 82.85000000000001), (97.429, 83.666), (13.809000000000001, 28.866), (64.891, 14.431000000000001)], [(28.546, 21.16), (91.783, 45.872), (60.597, 66.819), (64.891, 14.431000000000001)]),
+        ([(11.914, 50.661), (51.767, 13.133000000000001), (8.709, 23.932000000000002), (8.051, 88.683)], [(8.051, 88.683), (43.953, 36.626), (52.616, 76.418), (8.359, 4.474)]),
+    ];
+    for (k, (a, b)) in shared.iter().enumerate() {
+        corpus.push((format!("shared bit-identical end point, crossing again #{}", k), q(*a), q(*b), "shared_end_point"));
+        corpus.push((format!("shared bit-identical end point, crossing again #{} (swapped)", k), q(*b), q(*a), "shared_end_point"));
+    }
     for (name, a, b, class) in &corpus {
         stats.case(&format!("corpus {} a={:?} b={:?}", name, a, b), true);
         stats.count(&format!("class.{}", if class.is_empty() { "corpus_generic" } else { class }));
